@@ -1,0 +1,15 @@
+//go:build verif
+
+package samlidp
+
+import (
+	"net/http"
+
+	"github.com/crewjam/saml"
+)
+
+// VerifSendLoginForm exposes sendLoginForm to the verification harness (build tag "verif" only),
+// so that the toast position of the login form can be driven with arbitrary strings.
+func (s *Server) VerifSendLoginForm(w http.ResponseWriter, req *saml.IdpAuthnRequest, toast string) {
+	s.sendLoginForm(w, req, toast)
+}
